@@ -21,13 +21,19 @@ def opt_sexp(cid, s, mode, short, seqs):
                  ["tree"] + newgen.members_sexp(s), ["seqs"] + [list(map(str, q)) for q in seqs]])
 
 
-def leaf_types(s, path="", out=None):
+def leaf_types(s, path="", out=None, subst=None):
+    """dotted leaf path -> Go type; the type parameters of an embedded generic INSTANCE are replaced by its arguments"""
     out = out if out is not None else {}
+    subst = subst or {}
     for m in s["members"]:
         if m["k"] == "f":
-            out[(path + "." if path else "") + m["name"]] = m["type"]
+            out[(path + "." if path else "") + m["name"]] = subst.get(m["type"], m["type"])
         else:
-            leaf_types(m["decl"], (path + "." if path else "") + m["decl"]["name"], out)
+            sub = {}
+            if m.get("targs"):
+                names = [n for grp, _ in (m["decl"].get("tparams") or []) for n in grp]
+                sub = dict(zip(names, m["targs"]))
+            leaf_types(m["decl"], (path + "." if path else "") + m["decl"]["name"], out, sub)
     return out
 
 
@@ -83,7 +89,7 @@ def gen_specs(ctx):
     out.append(S([F("retries", **{"def": "0"}), F("verbose", "bool", **{"def": "false"}), F("prefix", "string", **{"def": '""'}), F("n", "int")]))
     n = ctx.n(160, 1500)
     for _ in range(n):
-        out.append(g.top("T", **{"def": 0.5, "maxfields": 4, "generic": 0.06, "refdefs": 0.6, "selfembed": 0.05, "types_extra": newgen.EXTRA_TYPES}))
+        out.append(g.top("T", **{"def": 0.5, "maxfields": 4, "generic": 0.06, "refdefs": 0.6, "selfembed": 0.05, "types_extra": newgen.EXTRA_TYPES, "generic_embed": 0.1}))
     return out
 
 
